@@ -19,6 +19,12 @@ def showLeaf (x : Nat × Nat × Bytes × List Link) : String :=
   let (k, lv, b, ch) := x
   s!"{k}/{lv}/{toHex b}/{if ch.isEmpty then "-" else ";".intercalate (ch.map showLink)}"
 
+/-- user leaves that are hashes (metadata leaves have no input hash to aggregate from) -/
+def hashLeafIds : Node → List Nat
+  | .leaf (some k) (.hash _) _ => [k]
+  | .leaf _ _ _ => []
+  | .inner _ _ l r => hashLeafIds l ++ hashLeafIds r
+
 def parseLinkTok (s : String) : Option Link :=
   match s.splitOn ":" with
   | [d, lc, k, hx] =>
@@ -37,7 +43,8 @@ def leafOracle (algo : Nat) (rootLevel : String) (rootImp : String) (toks : List
     | [] => none
     | t :: rest =>
       match t.splitOn "/" with
-      | [k, lv, inp, links] =>
+      | [k, lv, inp, links, agg] =>
+        if agg != "A-" && agg != "A0:1" then some s!"library-cannot-aggregate-its-own-chain-to-its-root({agg})" else
         match k.toNat?, lv.toNat?, ofHex inp,
               (if links == "-" then some [] else (links.splitOn ";").mapM parseLinkTok) with
         | some kk, some l, some b, some ch =>
@@ -65,7 +72,9 @@ def renderEnd (sts : List Nat) (closed : Option Node) (prev : String) : String :
   match closed with
   | some r =>
     let rb := match r with | .leaf _ (.mdata _) _ => "-" | _ => toHex r.bytes     -- a lone metadata leaf has no root hash
-    s!"{st} {r.level} {rb} {prev}" ++ String.join ((chains r).map fun x => " " ++ showLeaf x)
+    let hs := hashLeafIds r
+    s!"{st} {r.level} {rb} {prev}" ++ String.join ((chains r).map fun x =>
+      " " ++ showLeaf x ++ (if hs.contains x.1 && rb != "-" && !x.2.2.2.isEmpty then "/A0:1" else "/A-"))
   | none => s!"{st} - - {prev}"
 
 def runTb (algo maxL : Nat) (ops : List String) : String :=
